@@ -32,8 +32,11 @@ def validatorEntryOk (i : Inputs) (kv : Nat × Validator) : Bool :=
 
 def countValEnt (e : Nat) (vals : VMap) : Nat := vals.countP (fun kv => kv.2.entity == e)
 
-/-- The limit the code enforces: `MaxValidators`, but one validator is still elected when it is `≤ 0`
-(the `>=` test comes after the insertion, scheduler.go:614). `strict` asks for the configured limit itself. -/
+/-- The validator-count bound. `strict = true` (the specification): the configured `MaxValidators`.
+`strict = false`: what the election function itself guarantees for *every* parameter value,
+`max MaxValidators 1` — with `MaxValidators ≤ 0` one validator is still elected because the `>=` test
+comes after the insertion (scheduler.go:614).  Non-positive limits are unreachable: genesis
+(`InitChain`) and `ConsensusParameterChanges.SanityCheck` reject them (`changeAccepted` below). -/
 def maxValidatorsBound (p : Params) (strict : Bool) : Int :=
   if strict then p.maxValidators else max p.maxValidators 1
 
@@ -133,6 +136,33 @@ def updateNeeded (cur : PMap) (u : Update) : Bool :=
 def diffOk (cur pending : VMap) (us : List Update) : Bool :=
   updateKeysDistinct us && us.all (updateNeeded (toPMap cur)) &&
   sameMap (applyUpdates (toPMap cur) us) (toPMap pending)
+
+/-! ### parameter changes (the governance path that can alter the limits) -/
+
+/-- `scheduler.ConsensusParameterChanges`: absent fields stay as they are. -/
+structure ParamChange where
+  minValidators : Option Int := none
+  maxValidators : Option Int := none
+  dist : Option Nat := none
+deriving Repr, DecidableEq, Inhabited
+
+/-- `ConsensusParameterChanges.SanityCheck`: not empty, limits that are present are positive. -/
+def changeAccepted (c : ParamChange) : Bool :=
+  !(c.minValidators.isNone && c.maxValidators.isNone && c.dist.isNone) &&
+  (match c.minValidators with | some v => decide (0 < v) | none => true) &&
+  (match c.maxValidators with | some v => decide (0 < v) | none => true)
+
+/-- `changeParameters` with `apply = true`: a rejected proposal changes nothing. -/
+def applyChange (p : Params) (c : ParamChange) : Params :=
+  if changeAccepted c then
+    { p with minValidators := c.minValidators.getD p.minValidators
+             maxValidators := c.maxValidators.getD p.maxValidators
+             dist := c.dist.getD p.dist }
+  else p
+
+/-- What `InitChain` demands of the genesis parameters. -/
+def genesisValid (p : Params) : Bool :=
+  decide (0 < p.minValidators) && decide (0 < p.maxValidators) && decide (0 < p.maxPerEntity)
 
 /-! ### the whole epoch -/
 
